@@ -3,7 +3,7 @@
 All PKCS#11 typing knowledge lives here (the shell is a raw marshaller).  Nothing in this module looks at
 the library's private state: only exported C_* calls, the files under the state directory and exit status.
 """
-import json, os, select, shutil, struct, subprocess, tempfile
+import json, os, select, shutil, signal, struct, subprocess, tempfile
 from . import consts as C
 from .consts import *  # noqa: F401,F403
 
@@ -158,6 +158,9 @@ def scratch_root():
     return tempfile.mkdtemp(prefix="verif.%d." % os.getpid(), dir=base)
 
 
+CALL_TIMEOUT = float(os.environ.get("VERIF_CALL_TIMEOUT", "150"))      # seconds without any answer from the shell before a call is declared hanging
+
+
 class Shell:
     """one p11sh process; cwd = state directory (softhsm2.conf + tokens/)"""
 
@@ -171,7 +174,7 @@ class Shell:
         if env:
             e.update(env)
         self.p = subprocess.Popen([os.path.join(os.environ.get("VERIF_BUILD", os.path.join(VERIF, "build")), variant, prog)], cwd=statedir, env=e,
-                                  stdin=subprocess.PIPE, stdout=subprocess.PIPE, bufsize=0)
+                                  stdin=subprocess.PIPE, stdout=subprocess.PIPE, bufsize=0, start_new_session=True)
         self.ifd = self.p.stdin.fileno()
         self.ofd = self.p.stdout.fileno()
         self.buf = b""
@@ -184,11 +187,29 @@ class Shell:
             if i >= 0:
                 line, self.buf = self.buf[:i], self.buf[i + 1:]
                 return line
+            self._wait_readable(self.last)
             chunk = os.read(self.ofd, 1 << 16)
             if not chunk:
                 rc = self.p.wait()
                 raise Died({"eof": True, "returncode": rc}, self.last)
             self.buf += chunk
+
+    def _hang(self, during):
+        """no answer within CALL_TIMEOUT: the call hangs (endless loop, dead lock).  The shell and every snapshot child are killed (own process group)."""
+        try:
+            os.killpg(self.p.pid, signal.SIGKILL)
+        except Exception:
+            pass
+        try:
+            self.p.wait(timeout=10)
+        except Exception:
+            pass
+        raise Died({"eof": True, "hang": True, "no_answer_within_s": CALL_TIMEOUT, "returncode": None}, during)
+
+    def _wait_readable(self, during):
+        r, _, _ = select.select([self.ofd], [], [], CALL_TIMEOUT)
+        if not r:
+            self._hang(during)
 
     def cmd(self, line):
         self.last = line
@@ -214,7 +235,9 @@ class Shell:
         off = 0
         while len(out) < len(lines):
             wl = [self.ifd] if off < len(data) else []
-            r, w, _ = select.select([self.ofd], wl, [])
+            r, w, _ = select.select([self.ofd], wl, [], CALL_TIMEOUT)
+            if not r and not w:
+                self._hang(lines[len(out)] if len(out) < len(lines) else None)
             if w:
                 try:
                     off += os.write(self.ifd, data[off:off + (1 << 15)])
@@ -252,7 +275,10 @@ class Shell:
 
     def kill(self):
         try:
-            self.p.kill()
+            try:
+                os.killpg(self.p.pid, signal.SIGKILL)
+            except Exception:
+                self.p.kill()
             self.p.wait()
         except Exception:
             pass
